@@ -775,12 +775,12 @@ func main() {
 	if r.Thorough() {
 		d3 = [][3]int{{2, 2, 2}, {3, 3, 2}, {3, 2, 3}, {2, 3, 3}}
 		d2 = [][2]int{{3, 3}, {4, 3}, {3, 4}, {4, 4}}
-		db = [][2]int{{3, 3}, {4, 4}, {5, 4}}
+		db = [][2]int{{3, 3}, {4, 4}, {5, 4}, {4, 5}, {4, 2}, {2, 4}, {5, 2}, {2, 5}, {5, 3}, {3, 5}, {6, 3}, {3, 6}, {7, 2}, {2, 7}, {1, 6}, {6, 1}}
 		dr = [][3]int{{2, 2, 2}, {3, 2, 2}, {2, 3, 2}, {2, 2, 3}, {3, 3, 2}}
 	} else {
 		d3 = [][3]int{{2, 2, 2}, {3, 2, 2}, {2, 3, 2}, {2, 2, 3}}
 		d2 = [][2]int{{3, 3}, {4, 3}, {3, 4}}
-		db = [][2]int{{3, 3}, {4, 4}}
+		db = [][2]int{{3, 3}, {4, 4}, {4, 2}, {2, 4}, {5, 2}, {2, 5}, {5, 3}, {3, 5}, {1, 4}, {4, 1}} // wide and tall as well as square
 		dr = [][3]int{{2, 2, 2}, {3, 2, 2}}
 	}
 	r.Isolate("mc3", func() { enumMC3(r, d3) })
